@@ -127,7 +127,8 @@ def gen_docs(prop, seed, n, profile="F", replay=None, max_depth=3, features=None
             props = {"id": {"type": "integer"}}
             for nm, sch, z in r.sample(zero, r.randrange(2, 6)):
                 props[nm] = dict(sch, default=z)
-            doc = {"definitions": {"Zeroed": {"type": "object", "properties": props, "required": ["id"]}}}
+            req = ["id"] + [n_ for n_ in props if n_ != "id" and r.random() < 0.3]   # a default does not lift `required`
+            doc = {"definitions": {"Zeroed": {"type": "object", "properties": props, "required": req}}}
             if i % 2:
                 doc["definitions"]["Zeroed"]["additionalProperties"] = False
             out.append(("zd%03d" % i, doc, ["defaults", "zero_default", "object"]))
